@@ -41,7 +41,7 @@ SYM = {'a': 2, 'b': -3, 'h': 0.5, '_': None, 'x': 'x', 'z': 0,
        'n': '40', 'm': '-100', 't': True}
 EXTRA = 4                       # the extra literal number argument
 COLS = 'ABCDEFGHIJ'
-PROBE_COL = 'M'
+PROBE_COL = 'ZZ'
 FNS = ref.FUNCTIONS
 
 RULE = ('for every rectangle shape of the tier and every fill of its cells '
@@ -96,8 +96,17 @@ ASSUMPTIONS = [
 
 
 # ---------------------------------------------------------------- geometry
+def col_letters(n):
+    out = ''
+    n += 1
+    while n:
+        n, r = divmod(n - 1, 26)
+        out = chr(65 + r) + out
+    return out
+
+
 def addr(r, c, c0=0):
-    return '%s%d' % (COLS[c + c0], r + 1)
+    return '%s%d' % (col_letters(c + c0), r + 1)
 
 
 def piece(r0, c0, r1, c1):
@@ -327,6 +336,8 @@ def run_agg_fill(nr, nc, fill, vset, ctx, only=None):
                 key = '%s/v=%s/fn=%s' % (base, name, fn)
                 got = got_by[(name, fn)]
                 tags = set(feats) | {'fn:' + fn, 'v:' + variant_kind(name)}
+                if n_addressed > 255:
+                    tags.add('cells:over-255')
                 if model_tag == 'scalars-only':
                     tags.add('model:no-ranges')
                 inputs = {'family': 'agg', 'shape': [nr, nc], 'fill': fill,
@@ -521,6 +532,10 @@ def families(tier):
             fam.append(('agg', s, 'b_x', 'splits1', 12))
         for s in ((1, 1), (1, 2), (2, 1), (2, 2)):
             fam.append(('two', (s, s), 'ab_', None, 400))
+        # rectangles of more than 255 cells (whole range; one symbol, so one
+        # fill each)
+        for s in ((16, 16), (1, 256), (300, 1), (2, 150)):
+            fam.append(('agg', s, 'a', 'whole', 1))
         for s in SP_SHAPES_Q:
             fam.append(('sp', (s, s), 'ab_', None, 300))
         for s in ((1, 2), (2, 1)):
@@ -541,6 +556,9 @@ def families(tier):
         fam.append(('agg', (3, 3), 'ab_x', 'whole2cuts', 200))
         for s in SMALL:
             fam.append(('two', (s, s), 'ab_x', None, 400))
+        for s in ((16, 16), (1, 256), (300, 1), (2, 150), (17, 16)):
+            fam.append(('agg', s, 'a', 'whole', 1))
+            fam.append(('agg', s, 'b', 'whole', 1))
         for s in SP_SHAPES_Q:
             fam.append(('sp', (s, s), 'ab_x', None, 600))
         for s in ((1, 3), (3, 1)):
